@@ -53,7 +53,9 @@ RULE = ("case = 1..4 program trees (Seq | Try(filter set of 1,2,3,5 or 8 kinds o
         "construct) is compared exactly with a reference interpreter; depth before == after every construct and 0 "
         "around every tree. non-trivial = try nesting >= 2 and (an inner handler handled while an enclosing try body "
         "completed normally, or a handler threw, or an inner filter did not match). distinct = distinct case JSON. "
-        "extra phase: all trees over {M, X0, X1, Seq2, Try(A|[0]|[1])} in size order up to a count bound, one per case.")
+        "extra phase: all trees over {M, X0, X1, Seq2, Try(A|[0]|[1])} in size order up to a count bound, one per case. "
+        "libFuzzer phase (coverage.fuzz): harness/fz_exc.c decodes bytes into one tree over 16 kinds (no escaping exception, one thread), "
+        "runs it twice with the real macros and compares events, bound objects and depth with a reference interpreter inside the target.")
 ASSUMPTIONS = ["filters are sets: `catch (e in X, X)` (the same object twice) is outside the statement's domain; in the "
                "pinned tree it never terminates for a non-matching exception (foreach over a Tuple holding one pointer "
                "twice, see C11) and is therefore never generated",
